@@ -298,47 +298,65 @@ TREES = [("(a:0.1,b:0.2,c:0.3)", ["a", "b", "c"]),
 RATE_PARS = {"HKY85": ["kappa"], "GTR": ["A/C", "A/G", "A/T", "C/G", "C/T"], "F81": []}
 
 
-def lf_setting(rng, model, edges):
+BOUNDS = {"length": (0.0, 10.0), "rate": (1e-6, 1e6), "rate_shape": (0.01, 1e10)}
+
+
+def lf_setting(rng, model, edges, bins=False):
     w = rng.random()
     pars = RATE_PARS[model]
     if w < 0.12:
         p = [rng.uniform(0.1, 1.0) for _ in range(4)]
+        if rng.random() < 0.15:
+            p[rng.randrange(4)] = 0.0            # a motif with probability exactly 0
         s = sum(p)
         return dict(what="mprobs", value=[v / s for v in p])
     if w < 0.2:
         return dict(what="aln", length=rng.choice([30, 60]), aln_seed=rng.randint(0, 3))
+    if bins and w < 0.3:
+        v = rng.choice([0.01, 0.01, round(rng.uniform(0.3, 4.0), 3)])      # lower bound of rate_shape is 0.01
+        return dict(what="par", par="rate_shape", edges=None, value=v, const=rng.random() < 0.3, indep=False)
     # scope of the rule: every edge / one edge / a subset, tied or independent
     sc = rng.random()
     E = None if sc < 0.3 else [rng.choice(edges)] if sc < 0.65 else sorted(rng.sample(edges, rng.randint(2, min(3, len(edges)))))
+    at_bound = rng.random() < 0.35            # a value sitting exactly on a bound (0.0 for lengths)
     if w < 0.6 or not pars:
-        return dict(what="par", par="length", edges=E, value=round(rng.uniform(0.01, 1.5), 3), const=rng.random() < 0.2,
-                    indep=rng.random() < 0.6)
-    return dict(what="par", par=rng.choice(pars), edges=E, value=round(rng.uniform(0.3, 6.0), 3), const=rng.random() < 0.25,
-                indep=rng.random() < 0.4)
+        v = rng.choice([0.0, 0.0, 0.0, 10.0]) if at_bound else round(rng.uniform(0.01, 1.5), 3)
+        return dict(what="par", par="length", edges=E, value=v, const=rng.random() < 0.25, indep=rng.random() < 0.6)
+    v = (rng.choice([1e-6, 1e-6, 1e6]) if model == "HKY85" else 1e-6) if at_bound else round(rng.uniform(0.3, 6.0), 3)
+    # with rate-heterogeneity bins an independent rule would also split the parameter by bin (not tracked by the oracle)
+    return dict(what="par", par=rng.choice(pars), edges=E, value=v, const=rng.random() < 0.25, indep=(not bins) and rng.random() < 0.4)
 
 
 def lf_case(rng, block, raising=False):
     tree, edges = rng.choice(TREES)
     model = rng.choice(["HKY85", "HKY85", "GTR", "F81"])
     spec = dict(tree=tree, model=model, length=60, aln_seed=rng.randint(0, 3))
+    bins = (not raising) and rng.random() < 0.3
+    if bins:
+        spec["bins"] = 2
     ops = []
     for _ in range(rng.randint(4, 9)):
         w = rng.random()
         if w < 0.45:
-            ops.append(dict(op="set", s=lf_setting(rng, model, edges)))
+            ops.append(dict(op="set", s=lf_setting(rng, model, edges, bins)))
         elif w < 0.65:
-            ops.append(dict(op="postponed", body=[lf_setting(rng, model, edges) for _ in range(rng.randint(1, 3))], raises=False))
+            ops.append(dict(op="postponed", body=[lf_setting(rng, model, edges, bins) for _ in range(rng.randint(1, 3))], raises=False))
         elif w < 0.9:
             steps = []
             for _ in range(rng.randint(3, 10)):
-                h = rng.choice(["vec", "one", "one", "revert", "same", "change", "change"])
+                h = rng.choice(["vec", "one", "one", "revert", "same", "change", "change", "bound"])
                 d = round(rng.uniform(-0.05, 0.3), 3)
                 if h == "vec":
                     steps.append(["vec", [round(rng.uniform(-0.05, 0.3), 3) for _ in range(rng.randint(1, 3))]])
                 elif h in ("one", "change"):
                     steps.append([h, rng.randint(0, 9), rng.choice([d, d, 0.0])])
+                elif h == "bound":
+                    steps.append(["bound", rng.randint(0, 9), rng.choice(["lo", "lo", "hi"])])
                 else:
                     steps.append([h])
+            if rng.random() < 0.5:
+                # the session ENDS with one or two parameters on a bound
+                steps += [["bound", rng.randint(0, 9), rng.choice(["lo", "lo", "hi"])] for _ in range(rng.randint(1, 2))]
             ops.append(dict(op="calc", steps=steps))
         else:
             ops.append(dict(op="roundtrip"))
@@ -365,6 +383,9 @@ def lf_exhaustive_block(tier):
                                                  par(par="kappa", edges=["a", "b"], value=2.0)]),
         dict(op="calc", steps=[["one", 0, 0.1], ["revert"], ["change", 1, 0.2], ["change", 1, 0.0], ["vec", [0.05, 0.0]]]),
         dict(op="set", s=dict(what="mprobs", value=[0.1, 0.2, 0.3, 0.4])),
+        dict(op="set", s=par(par="length", edges=["c"], value=0.0, indep=True)),            # free, exactly on the lower bound
+        dict(op="set", s=par(par="length", edges=["b"], value=0.0, const=True)),            # constant 0
+        dict(op="calc", steps=[["one", 1, 0.1], ["bound", 2, "lo"], ["bound", 0, "hi"]]),   # session ends on two bounds
     ]
     depth = 2 if tier == "quick" else 3
     return [dict(kind="lf", block="exhaustive", spec=spec, edges=edges, ops=[dict(o) for o in hist] + [dict(op="roundtrip")])
@@ -492,13 +513,18 @@ def check_ctl(rep, c, ir, mr, stats):
     return None
 
 
+# kind -> keys [value, is_constant, init, lower, upper] of the exported rule (theorem rules_export_keeps_every_key);
+# run() overwrites the entries with what the Coq model computes
+RULE_KEYS = {"const": [True, True, False, False, False], "var": [False, False, True, True, True], "nvar": [False, False, True, False, False]}
+
+
 def check_lf(rep, c, ir, stats):
     if isinstance(ir, dict) and "exc" in ir:
         rep.violation("lf:runner-raised:" + re.sub(r"[0-9.]+", "N", (ir.get("tb") or "").strip().split("\n")[-1])[:70],
                       dict(case=c, observed_impl=ir, broken="a valid history made the likelihood function raise or hang"))
         return
     raised = False
-    for k, (tag, lnl, f_lnl, nfp, f_nfp, extra) in enumerate(ir):
+    for k, (tag, lnl, f_lnl, nfp, f_nfp, extra, rt) in enumerate(ir):
         stats["lf_steps"] += 1
         if tag == "postponed-raise":
             raised = True
@@ -517,11 +543,79 @@ def check_lf(rep, c, ir, stats):
                                     broken="likelihood function value differs from a newly built function given the same final settings"
                                            + (" (an exception inside `with lf.updates_postponed()` left updates suspended)" if raised else "")))
             return
+        # rule export -> new function -> import: lnL, nfp and every parameter value
+        stats["roundtrips"] += 1
+        stats["rt_params"] += rt["nparams"]
+        for par, const, keys, i0, ilo, ihi, v0, vec0 in rt["rules"]:
+            stats["rules"] += 1
+            stats["rules_init_zero"] += int(i0)
+            stats["rules_init_at_lower"] += int(ilo)
+            stats["rules_init_at_upper"] += int(ihi)
+            stats["rules_const_zero"] += int(v0)
+            stats["rules_vector_with_zero"] += int(vec0)
+            kind = "const" if const else "var" if keys[3] or keys[4] or par not in ("mprobs", "bprobs") else "nvar"
+            want = RULE_KEYS.get(kind)
+            if want is not None and keys != want:
+                rep.violation(f"lf:rule-keys:{kind}", dict(case=dict(c, ops=c["ops"][:k]), step=k, expected_by_spec=want, observed_impl=[par, keys],
+                                                            broken="an exported rule lacks a key Setting.get_param_rule_dict always emits "
+                                                                   "(Model.Calc.export / rules_export_keeps_every_key)"))
+                break
+        rbad = None
+        both_inf = rt["lnL"] == lnl      # covers -inf == -inf
+        if rt["worst"] > TOL and rt["which"] and str(rt["which"][0]).split("#")[0] in ("mprobs", "bprobs"):
+            rbad = "probability-vector"          # the export altered a probability vector (adjusted_gt_minprob)
+        elif not both_inf and abs(rt["lnL"] - lnl) > TOL * max(1.0, abs(lnl)):
+            rbad = "lnL"
+        elif rt["nfp"] != nfp:
+            rbad = "nfp"
+        elif rt["worst"] > TOL:
+            rbad = "param"
+        if rbad and not raised:
+            rep.violation(f"lf:roundtrip:{rbad}", dict(case=dict(c, ops=c["ops"][:k]), step=k, expected_by_spec=dict(lnL=lnl, nfp=nfp),
+                                                        observed_impl=dict(lnL=rt["lnL"], nfp=rt["nfp"], worst_param=rt["which"]),
+                                                        broken="get_param_rules -> new function -> apply_param_rules does not reproduce the "
+                                                               "source function (lnL / nfp / a parameter value)"))
+            return
     if len(ir) > 3:
         stats["nontrivial"].add(json.dumps(c, sort_keys=True))
 
 
+def rule_model_cases():
+    """settings with boundary values (scaled by 1000) pushed through the Coq export/import model: (numeric, target, source)"""
+    srcs = [(0, 0, 0, 0), (0, 0, 500, 0), (1, 0, 0, 10000), (1, 0, 10000, 10000), (1, 0, 250, 10000), (1, 0, 0, 0), (2, 0, 0, 0), (2, 0, 250, 0)]
+    curs = [(1, 0, 100, 10000), (0, 0, 300, 0), (1, 50, 100, 200)]
+    out = []
+    for sk in srcs:
+        for ck in curs:
+            numeric = sk[0] != 2 and ck[0] != 2
+            if sk[0] == 2:
+                ck = (2, 0, 100, 0)
+            out.append((numeric, ck, sk))
+    return out
+
+
+def run_rule_model(rep):
+    cases = rule_model_cases()
+    z = lambda t: "(" + ",".join(zlit(x) for x in t) + ")"
+    res = core.coq_eval(PROP, ["Model.Calc", "Model.CalcRun"], "run_any",
+                        [f"ARule ({cbool(n)}, {z(c)}, {z(sk)})" for n, c, sk in cases], "anycase", shard=200, tag="r")
+    bad = []
+    for (n, c, sk), (keys, got) in zip(cases, res):
+        kind = {0: "const", 1: "var", 2: "nvar"}[sk[0]]
+        RULE_KEYS[kind] = keys
+        want = [0, sk[2]] if sk[0] == 0 else [1, sk[1], sk[2], sk[3]] if sk[0] == 1 else [2, sk[2]]
+        if got != want:
+            bad.append(dict(key="rule-model", case=dict(numeric=n, target=c, source=sk), model_output=jsonable(got), expected=want))
+    return bad
+
+
 # ------------------------------------------------------------------ the check
+
+def new_stats():
+    return dict(steps=0, undo_hits=0, recycled_evals=0, exceptions=0, outside_domain_steps=0, lf_steps=0, lf_calc_steps=0,
+                roundtrips=0, rt_params=0, rules=0, rules_init_zero=0, rules_init_at_lower=0, rules_init_at_upper=0,
+                rules_const_zero=0, rules_vector_with_zero=0, nontrivial=set())
+
 
 def run(tier: str, seed: int) -> int:
     rep = core.Report(PROP, tier, seed)
@@ -574,8 +668,10 @@ def run(tier: str, seed: int) -> int:
             raise
         rep.notes.append(f"model not runnable: {str(e)[:300]}")
 
-    stats = dict(steps=0, undo_hits=0, recycled_evals=0, exceptions=0, outside_domain_steps=0, lf_steps=0, lf_calc_steps=0, nontrivial=set())
+    stats = new_stats()
     disagreements = []
+    if model is not None:
+        disagreements += run_rule_model(rep)
     for k, (c, ir) in enumerate(zip(synth, impl_s)):
         mr = model[k] if model is not None else None
         d = (check_calc if c["kind"] == "calc" else check_ctl)(rep, c, ir, mr if mr is not None else from_jsonable(ir), stats)
@@ -589,7 +685,7 @@ def run(tier: str, seed: int) -> int:
         blocks[c["kind"] + ":" + c["block"]] = blocks.get(c["kind"] + ":" + c["block"], 0) + 1
     sample = next(c for c in cases if c["kind"] == "calc" and c["block"] == "random")
     rep.coverage.update(
-        evaluations=stats["steps"] + stats["lf_steps"] + stats["lf_calc_steps"],
+        evaluations=stats["steps"] + stats["lf_steps"] + stats["lf_calc_steps"] + stats["roundtrips"],
         distinct_nontrivial=len(stats["nontrivial"]),
         rule="one evaluation = one step of one history (a Calculator.change / testoptparvector call, a controller assignment or "
              "postponed block, a likelihood-function setting / block / optimiser-session step), each compared with an evaluation "
@@ -599,13 +695,20 @@ def run(tier: str, seed: int) -> int:
         input_distribution=dict(cases=len(cases), blocks=blocks, calc_steps=stats["steps"], undo_shortcut_steps=stats["undo_hits"],
                                 steps_recomputing_a_recycled_cell=stats["recycled_evals"], steps_raising=stats["exceptions"],
                                 steps_outside_domain_model_vs_impl_only=stats["outside_domain_steps"],
-                                lf_steps=stats["lf_steps"], lf_optimiser_steps=stats["lf_calc_steps"]),
+                                lf_steps=stats["lf_steps"], lf_optimiser_steps=stats["lf_calc_steps"],
+                                rule_roundtrips=stats["roundtrips"], parameter_values_compared=stats["rt_params"],
+                                exported_rules=stats["rules"], exported_rules_init_exactly_0=stats["rules_init_zero"],
+                                exported_rules_init_on_lower_bound=stats["rules_init_at_lower"],
+                                exported_rules_init_on_upper_bound=stats["rules_init_at_upper"],
+                                exported_rules_constant_exactly_0=stats["rules_const_zero"],
+                                exported_probability_vectors_with_a_zero=stats["rules_vector_with_zero"]),
         model_impl_disagreements=len(disagreements),
         partial=PARTIAL,
         exhaustive=False,
         exhaustive_block=f"synthetic Calculator: all histories of length {3 if quick else 4} over a 7-operation alphabet on "
                          f"{len(EX_GRAPHS)} fixed graphs; likelihood function: all sequences of {2 if quick else 3} operations over a "
-                         "7-operation alphabet (HKY85, 3 taxa), each followed by a rule export/import round trip",
+                         "10-operation alphabet (HKY85, 3 taxa; incl. free length exactly 0.0, constant 0, optimiser session ending on bounds), "
+                         "rule export/import round trip after every step",
     )
     core.conclude(rep, pr, f"{len(cases)} histories against evaluation from scratch", disagreements[:5],
                   "Model.CalcRun.run_any vs cogent3.recalculation Calculator / ParameterController", tier, PROP)
@@ -613,8 +716,10 @@ def run(tier: str, seed: int) -> int:
 
 
 PARTIAL = [
-    "rule export/import (get_param_rules -> apply_param_rules reproduces lnL and nfp): no model, no theorem; sampled on real "
-    "likelihood functions ('roundtrip' steps of the LF histories)",
+    "rule export/import: proved for ONE setting (rules_roundtrip_setting: import (export s) = s incl. values exactly 0 / on a bound; "
+    "rules_export_keeps_every_key); the assembly of rules over scopes (get_param_rules grouping by edges/bins, is_independent, "
+    "global-rule pruning) and the probability-vector adjustment of the export are sampled: after EVERY step of every LF history the "
+    "exported rules are applied to a new function and lnL, nfp and every parameter value are compared",
     "set_alignment / set_motif_probs / scope changes of set_param_rule: the theorems cover them only as 'assignment to a leaf "
     "definition followed by the dirty-set update'; the mapping from these API calls to leaf assignments (scope.py assign_all, "
     "interpret_scopes, _update_from_assignments) is sampled by the LF histories against a newly built function, not modelled",
@@ -635,7 +740,7 @@ def replay(path: str) -> int:
     ir = core.run_impl_lines("c07_impl.py", [c])[0]
     rep = core.Report(PROP, "replay", 0)
     rep.findings = []
-    stats = dict(steps=0, undo_hits=0, recycled_evals=0, exceptions=0, outside_domain_steps=0, lf_steps=0, lf_calc_steps=0, nontrivial=set())
+    stats = new_stats()
     import contextlib
     import io
 
